@@ -50,11 +50,13 @@ Spendable(o, h) == SpendableAt(o, h, Activation)
 Height(b) == tree[b].height
 ChainOf(b) == ChainOfIn(tree, b)
 TxSeq(c) == TxSeqIn(tree, c)
-FoldTxs(ts) == FoldTxsAt(ts, Activation)
+FoldTxs(ts) == FoldTxsAt(tree, ts, Activation)
+Outs(t) == OutsIn(tree, t)
+MinerCb == <<[s |-> Miner, v |-> 50]>>
 UtxoOfSeq(ts) == FoldTxs(ts).U
 UtxoAt(c) == UtxoOfSeq(TxSeq(c))
 HistAt(c, s) == FoldTxs(TxSeq(c)).H[s]
-CanMineAll(ts, S, h) == CanMineAllAt(ts, S, h, Activation)
+CanMineAll(ts, S, h) == CanMineAllAt(tree, ts, S, h, Activation)
 
 (* =================================== helpers =================================== *)
 Min2(a, b) == IF a < b THEN a ELSE b
@@ -68,7 +70,7 @@ Overwrite(f, off, data) == SubSeq(f, 1, Min2(off, Len(f))) \o data   \* write at
 Ev(e) == evs' = IF Export THEN Append(evs, e) ELSE evs
 
 Init ==
-  /\ tree = [b \in {0} |-> [parent |-> -1, height |-> 0, txs |-> <<CB>>]]
+  /\ tree = [b \in {0} |-> [parent |-> -1, height |-> 0, txs |-> <<CB>>, cb |-> Funding]]
   /\ nb = 0 /\ best = 0 /\ nforks = 0
   /\ mem = NoMem /\ cache = {} /\ dels = {} /\ unfl = <<>> /\ pend = <<>> /\ pendUndo = <<>>
   /\ txcounts = <<>> /\ fsH = -1 /\ dbst = NoMem /\ hfc = 0 /\ touched = {}
@@ -89,7 +91,7 @@ NewBlock(parent, S) ==
   /\ CanMineAll(TxSeq(ChainOf(parent)), S, Height(parent) + 1)
   /\ nb' = nb + 1
   /\ tree' = [b \in 0..(nb + 1) |-> IF b = nb + 1
-                THEN [parent |-> parent, height |-> Height(parent) + 1, txs |-> <<CB + nb + 1>> \o S]
+                THEN [parent |-> parent, height |-> Height(parent) + 1, txs |-> <<CB + nb + 1>> \o S, cb |-> MinerCb]
                 ELSE tree[b]]
   /\ best' = nb + 1
 
@@ -160,7 +162,7 @@ AdvTx(acc, t, h) ==
              IN SpendAll([a EXCEPT !.c = r.c, !.d = r.d, !.undo = Append(a.undo, r.ent),
                                    !.ss = a.ss \cup {r.ent.s}, !.uc = a.uc - 1, !.ok = a.ok /\ r.ok], k + 1)
       a1 == SpendAll([acc EXCEPT !.ss = {}], 1)
-      outs == TxOuts(t)
+      outs == Outs(t)
       good == { k \in 1..Len(outs) : Spendable(outs[k], h) }
       newc == { [t |-> t, i |-> k - 1, s |-> outs[k].s, n |-> acc.n, v |-> outs[k].v] : k \in good }
   IN [a1 EXCEPT !.c = a1.c \cup newc, !.uc = a1.uc + Cardinality(good),
@@ -328,7 +330,7 @@ ReorgCalc ==
 UndoRow(h) == { r \in undoT : r.h = h }
 BackupTx(acc, t, h) ==
   \* acc = [c, d, ents (remaining undo entries), tch, uc, ok]
-  LET outs == TxOuts(t)
+  LET outs == Outs(t)
       good == { k \in 1..Len(outs) : Spendable(outs[k], h) }
       RECURSIVE SpendOuts(_, _)
       SpendOuts(a, k) ==
